@@ -106,8 +106,12 @@ FilterExpected(e) == [case |-> FilterCase(e.pod, e.nd),
                       allocatable |-> EffAlloc(e.nd), thresholds |-> ThresholdsFor(e.pod, e.nd),
                       mayPass |-> FilterOK(e.pod, e.nd, TRUE, Strict), mayReject |-> FilterOK(e.pod, e.nd, FALSE, Strict)]
 TFilter == /\ IsEvent("filter") /\ Ev.nd.name \in cfg.nodes
-           /\ Expect(FilterOK(Ev.pod, Ev.nd, Ev.pass, Strict), FilterExpected(Ev))
            /\ UNCHANGED <<clock, metric, assigned>> /\ Keep
+           /\ (IF "VERIF_STATS" \in DOMAIN IOEnv THEN PrintT(<<"FSTAT", l, ToJson(FilterExpected(Ev))>>) ELSE TRUE)
+           /\ IF Explaining /\ FilterOK(Ev.pod, Ev.nd, Ev.pass, Strict)
+              THEN ObsOK(Ev)                                   \* the verdict is fine: explain the vectors
+              ELSE /\ Expect(FilterOK(Ev.pod, Ev.nd, Ev.pass, Strict), FilterExpected(Ev))
+                   /\ (Explaining \/ ObsOK(Ev))                \* asking never changes the estimate kept for the node
 
 \* ---- (E) the model of the estimator
 TEstimate == /\ IsEvent("estimate")
